@@ -193,6 +193,7 @@ def make_argument2(ctx, nm, sh, dt=None, dtype=None):
     dt = dt if dt is not None else dtype
     if dt is None:
         dt = DTerm(DT_CONST[float], (type,))  # the default of function.Argument.__init__
+    dt = dt_term(dt)
     if isinstance(sh, MappedShape) or not isinstance(sh, ShapeT):
         raise Unsupported('Argument shape %r' % (sh,))
     return FArr('Argument', sh, dt, no_spaces(), {nm: (sh, dt)}, classes=('Argument', 'Array'), name=nm)
@@ -540,6 +541,7 @@ def make_argument_t(ctx, nm, sh, dt=None, dtype=None):
     dt = dt if dt is not None else dtype
     if dt is None:
         dt = DTerm(DT_CONST[float], (type,))
+    dt = dt_term(dt)
     sh = tuple(sh)
     return TArr('Argument', sh, dt, {nm: (sh, dt)}, classes=('Argument', 'Array'), name=nm)
 
@@ -572,7 +574,7 @@ class Field(Contract):
         for v in list(extra) + [x for a in arrays for x in a.attrs['shape']] + [a.attrs['arguments'][k][0][0] for a in arrays for k in a.attrs['arguments']]:
             cx.assume(v.v >= 0)
         S = State(nm=nm, dt=dt, extra=extra, arrays=arrays)
-        S.globals = {'Argument': ClassRef('Argument', construct=make_argument_t), 'numpy': NumpyAxis(), '_append_axes': append_axes, 'field': InlineFn('function:field')}
+        S.globals = {'Argument': ClassRef('Argument', construct=make_argument_t), 'numpy': NumpyAxis(), '_append_axes': append_axes, 'field': InlineFn('function:field'), '_dtypes': ()}
         S.args = (nm,) + tuple(arrays)
         S.kwargs = dict(shape=extra, dtype=dt)
         return S
